@@ -59,6 +59,10 @@ def dict_literal_keys(fi, ctx=None):
 
 
 def run(ctx):
+    # no hidden state: what this property is about keeps nothing at module level between calls (memo tables keyed by less than
+    # the value depends on, caches of the outside world, counters) -- a verdict on one call must hold for every later call
+    from .. import rules as _rules
+    _rules.check_hidden_state(ctx, 'C04.7', ['bits.tx.tx', 'bits.tx.tx_deser', 'bits.tx.txid', 'bits.blockchain.block_ser', 'bits.blockchain.block_deser'])
     R = ctx.R
     fi = ctx.fn("bits.tx.tx_deser")
     ev = ctx.evaluator(opaque=OPAQUE)
